@@ -2172,6 +2172,10 @@ size_t ZSTD_decompressStream(ZSTD_DStream* zds, ZSTD_outBuffer* output, ZSTD_inB
                             ZSTD_getFrameHeader_advanced(&zds->fParams, zds->headerBuffer, zds->lhSize, zds->format),
                             "First few bytes detected incorrect" );
                         /* return hint input size */
+                        if ( zds->format == ZSTD_f_zstd1 && zds->lhSize >= 4
+                          && (MEM_readLE32(zds->headerBuffer) & ZSTD_MAGIC_SKIPPABLE_MASK) == ZSTD_MAGIC_SKIPPABLE_START ) {
+                            return hSize - zds->lhSize;   /* skippable frame : no block header follows, content may be < 3 bytes */
+                        }
                         return (MAX((size_t)ZSTD_FRAMEHEADERSIZE_MIN(zds->format), hSize) - zds->lhSize) + ZSTD_blockHeaderSize;   /* remaining header bytes + next block header */
                     }
                     assert(ip != NULL);
